@@ -109,28 +109,61 @@ class HandlerLog(object):
     """Handlers generated per command record what they were given, then do
     what ``behaviour(command_full_name, args, io)`` prescribes."""
 
+    STYLES = ("instance", "factory", "callback", "method")
+
     def __init__(self):
         self.calls = []
         self.behaviour = None
+        self.made = 0  # set before building to start the rotation elsewhere
+        self.styles = {}
 
-    def handler_for(self, node):
+    def install(self, cfg, node, full_name):
+        """Gives the command its handler in one of the four ways the library supports, in rotation: a handler
+        object, a callable returning one (called at each access), a CallbackHandler around a plain function
+        (which is not given the command), and a handler object with a configured method name."""
         log = self
+
+        class Named(object):
+            full_name = None
+
+        named = Named()
+        named.full_name = full_name
+
+        def record(args, io, command):
+            log.calls.append(dict(
+                command=command.full_name, arguments=args.arguments(True), options=args.options(False),
+                verbosity=io.verbosity, quiet=io.is_quiet(), interactive=io.is_interactive(),
+                ansi_out=io.output.supports_ansi(), ansi_err=io.error_output.supports_ansi(),
+            ))
+            if log.behaviour is not None:
+                return log.behaviour(command, args, io)
+            return 0
 
         class H(object):
             def handle(self, args, io, command):
-                log.calls.append(dict(
-                    command=command.full_name, arguments=args.arguments(True), options=args.options(False),
-                    verbosity=io.verbosity, quiet=io.is_quiet(), interactive=io.is_interactive(),
-                    ansi_out=io.output.supports_ansi(), ansi_err=io.error_output.supports_ansi(),
-                ))
-                if log.behaviour is not None:
-                    return log.behaviour(command, args, io)
-                return 0
+                return record(args, io, command)
 
-        return H()
+        class M(object):
+            def execute(self, args, io, command):
+                return record(args, io, command)
+
+        style = self.STYLES[self.made % len(self.STYLES)]
+        self.made += 1
+        self.styles[full_name] = style
+        if style == "instance":
+            cfg.set_handler(H())
+        elif style == "factory":
+            cfg.set_handler(lambda: H())
+        elif style == "callback":
+            from clikit.handler.callback_handler import CallbackHandler
+
+            cfg.set_handler(CallbackHandler(lambda args, io: record(args, io, named)))
+        else:
+            cfg.set_handler(M())
+            cfg.set_handler_method("execute")
 
 
-def configure_command(cfg, node, api, log):
+def configure_command(cfg, node, api, log, prefix=""):
     Argument, Option = api["Argument"], api["Option"]
     cfg.set_aliases(list(node["aliases"]))
     if node["desc"] is not None:
@@ -157,11 +190,12 @@ def configure_command(cfg, node, api, log):
             fl |= Option.PREFER_SHORT_NAME
         d = o["default"]
         cfg.add_option(o["long"], o["short"], fl, o["desc"], list(d) if isinstance(d, list) else d)
+    full_name = (prefix + " " + node["name"]).strip()
     if log is not None:
-        cfg.set_handler(log.handler_for(node))
+        log.install(cfg, node, full_name)
     for s in node["subs"]:
         sub = api["CommandConfig"](s["name"])
-        configure_command(sub, s, api, log)
+        configure_command(sub, s, api, log, full_name)
         cfg.add_sub_command_config(sub)
 
 
